@@ -129,6 +129,24 @@ func (o *obj) Exec(tid int, c sched.Call) []interface{} {
 			}
 		})
 		return []interface{}{sortedPairs(seen)}
+	case "mapins":
+		seen := map[int]int{}
+		kv.Map(func(m mapz.KV[int, int]) {
+			for k, v := range m {
+				seen[k] = v
+			}
+			m[ai(c, 0)] = ai(c, 1)
+		})
+		return []interface{}{sortedPairs(seen)}
+	case "mapdelall":
+		seen := map[int]int{}
+		kv.Map(func(m mapz.KV[int, int]) {
+			for k, v := range m {
+				seen[k] = v
+				delete(m, k)
+			}
+		})
+		return []interface{}{sortedPairs(seen)}
 	case "clear":
 		kv.Clear()
 		return []interface{}{}
@@ -167,11 +185,11 @@ func gen(rng *rand.Rand) json.RawMessage {
 		for j := 0; j < nc; j++ {
 			v := 10*(t+1) + j
 			var c []interface{}
-			x := rng.Intn(19)
+			x := rng.Intn(21)
 			if focus == 1 {
 				x = []int{2, 2, 2, 5, 0, 8}[rng.Intn(6)]
 			} else if focus == 2 {
-				x = []int{1, 6, 9, 10, 11, 12, 13, 14, 15, 16}[rng.Intn(10)]
+				x = []int{1, 6, 8, 9, 10, 11, 12, 13, 14, 15, 16, 19, 20, 8}[rng.Intn(14)]
 			}
 			switch x {
 			case 0:
@@ -212,6 +230,10 @@ func gen(rng *rand.Rand) json.RawMessage {
 				c = []interface{}{"clear"}
 			case 16:
 				c = []interface{}{"getwithlock", k()}
+			case 19:
+				c = []interface{}{"mapins", k(), v}
+			case 20:
+				c = []interface{}{"mapdelall"}
 			default:
 				c = []interface{}{"set", k(), v}
 			}
